@@ -91,7 +91,9 @@ VoteVerdict(e) == e.pre /\ KindPre(e) /\ QuorumOk(VoteMsg(e), e.kind, e.payload)
 
 TraceVote ==
   /\ IsEvent("vote")
-  /\ B("vote") => (Ev.ok = VoteVerdict(Ev))
+  \* (a vote in a non-canonical bitmap encoding - trailing zero bytes cut off - may be refused for its form; accepted, it needs
+  \* the same genuine quorum as any other)
+  /\ B("vote") => IF Ev.enc = "trimmed" THEN (Ev.ok => VoteVerdict(Ev)) ELSE (Ev.ok = VoteVerdict(Ev))
   /\ IF Ev.ok
        THEN /\ AcceptVoted(Ev.vid)
             /\ pubkeys' = IF Ev.kind = "NewPubkey" THEN pubkeys \cup {Ev.key} ELSE pubkeys
